@@ -459,7 +459,7 @@ fn main() {
     eng.rule(
         "csi_table: 63 finals x 8 intermediates x parameter lists over {0,1,size,2^16,10^6,2^31-1} (all lists of length <=2; lengths 3..6 with exactly one large position, others 1 or size) x 3 screen \
          prefixes (empty, full+scrollback+margins, printable just written); other_streams: macro recursion/repeat/fan-out, sixel raster/repeat/colour registers, OSC, music, custom-font DCS payloads, Avatar/Ctrl-A \
-         repeats; files: golden xb/adf/idf/tnd/bin/psf/tdf files with 1-4 header or tail bytes set to extremes; icy_record_fields: every byte offset 0..96 of every zTXt record of a golden IcyDraw file overwritten with 1-4 byte extremes; psf2_headers: all combinations of extreme PSF2 header fields; csi_pairs: state-setting sequences carrying 2^16 / 10^6 / 2^31-1 (margins, scroll regions, single-edge margin updates, origin mode, far tab stop, far cursor), alone and on a screen that already has a left/right or four-parameter region, each followed by every control function (63 finals x 8 intermediates x {no parameter, 1, 25}) and by line feeds / a long printable run / index and reverse index; stored_numbers: 18 sequences that store 10^6 / 2^31-1 (macro id, font slot, tab stop, saved cursor, palette index, hyperlink id) each followed by every control function with every selector 0..=99 (alone and as `sel;1`); random_numbers: generated CSI/DCS sequences with random magnitudes. Each input runs in a \
+         repeats; files: golden xb/adf/idf/tnd/bin/psf/tdf files with 1-4 header or tail bytes set to extremes; icy_record_fields: every byte offset 0..96 of every zTXt record of a golden IcyDraw file overwritten with 1-4 byte extremes; psf2_headers: all combinations of extreme PSF2 header fields; csi_pairs: state-setting sequences carrying 2^16 / 10^6 / 2^31-1 (margins, scroll regions, single-edge margin updates, origin mode, far tab stop, far cursor), alone and on a screen that already has a left/right or four-parameter region, each followed by every control function (63 finals x 8 intermediates x {no parameter, 1, 25}) and by line feeds / a long printable run / index and reverse index; csi_documents: the same table with lists of length <= 2, followed by a printed character and a line, loaded as an .ans DOCUMENT on an empty document and after two lines of text; stored_numbers: 18 sequences that store 10^6 / 2^31-1 (macro id, font slot, tab stop, saved cursor, palette index, hyperlink id) each followed by every control function with every selector 0..=99 (alone and as `sel;1`); random_numbers: generated CSI/DCS sequences with random magnitudes. Each input runs in a \
          worker: CPU (all threads) <= max(0.5 s, 50 x CPU of the same template at screen size), peak heap <= 256 MiB, no abort, no answer within 6 s = hang. Non-trivial: the case ran to completion \
          under measurement (not ended by a panic); distinct by case hash.",
     );
@@ -635,6 +635,39 @@ fn main() {
         classify,
     );
 
+    // the control-function table once more, as an ANSI DOCUMENT (Buffer::from_bytes, is_terminal_buffer = false): a document has no
+    // screen that clamps the cursor, so a different set of bounds applies than in the terminal
+    let doc_lists: Vec<Vec<u32>> = lists.iter().filter(|l| l.len() <= 2).cloned().collect();
+    let n_doc = doc_lists.len() as u64;
+    let st8 = steered.clone();
+    eng.enumerated_with_class(
+        PartCfg::new("csi_documents", 0, 0).isolated().timeout_ms(6_000).hang_is_violation(true).heap_cap(2 << 30).exhaustive(true),
+        63 * 8 * n_doc * 2,
+        move |i| {
+            let with_text = i % 2 == 1;
+            let li = ((i / 2) % n_doc) as usize;
+            let rest = i / 2 / n_doc;
+            let inter = INTERS[(rest % 8) as usize];
+            let fin = 0x40 + (rest / 8) as u8;
+            let ps = &doc_lists[li];
+            let size_for = |i: usize| if i % 2 == 0 { H as u32 } else { W as u32 };
+            let wrap = |seq: Vec<u8>| {
+                let mut v = if with_text { b"some text\r\nmore text\r\n".to_vec() } else { Vec::new() };
+                v.extend(seq);
+                v.extend_from_slice(b"x\r\ny");
+                v
+            };
+            let large = wrap(render_csi(inter, fin, ps, size_for, false));
+            let any_large = ps.iter().any(|p| is_large(*p));
+            let base = if any_large { wrap(render_csi(inter, fin, ps, size_for, true)) } else { Vec::new() };
+            let mut c = Case { family: format!("doc|csi|{}{}", inter.replace(' ', "SP"), fin as char), prefix: 9, emu: 0, large: Bytes(large), base: Bytes(base), ext: "ans".to_string(), skip: false };
+            c.skip = st8(&c.family);
+            c
+        },
+        check,
+        classify,
+    );
+
     let icy_chunks = icy_golden_chunks();
     let n_icy = (icy_chunks.len() as u64) * 96 * ICY_PATTERNS.len() as u64;
     let st5 = steered.clone();
@@ -703,6 +736,13 @@ fn main() {
 /// (family prefix, finding id): families represented by a witness while the finding is open
 const KNOWN_FAMILIES: &[(&str, &str)] = &[
     ("csi|b", "C03-rep-unbounded"),
+    ("doc|csi|b", "C03-rep-unbounded"),
+    ("doc|csi|B", "C03-document-rows-follow-cursor"),
+    ("doc|csi|E", "C03-document-rows-follow-cursor"),
+    ("doc|csi|H", "C03-document-rows-follow-cursor"),
+    ("doc|csi|f", "C03-document-rows-follow-cursor"),
+    ("doc|csi|d", "C03-document-rows-follow-cursor"),
+    ("doc|csi|e", "C03-document-rows-follow-cursor"),
     ("macro|hex_repeat_count", "C03-macro-hex-repeat-count"),
     ("macro|hex_repeat_of_invocation", "C03-macro-invocation-fanout"),
     ("sixel|repeat", "C03-sixel-repeat-unbounded"),
